@@ -161,7 +161,11 @@ GSpec == GInit /\ [][GNext]_gvars
 Last == IF hist = <<>> THEN <<>> ELSE hist[Len(hist)].c
 CoverView == <<vars, run, cur, parkl, parked, blockedT, Last>>
 
-Emit == (run = <<>> /\ cur = NoStep /\ Len(hist) >= 1 /\ (EmitAll \/ Len(hist) = MaxSteps)) =>
+GChoose == (\E l \in Listeners : GPoll(l) \/ GDrop(l))
+           \/ (\E s \in Sigs, on \in RaiseOn, pk \in 0..MaxNL : GRaise(s, on, pk))
+           \/ (\E h \in Handlers : GRelease(h))
+\* simulation: a behaviour is complete when it has MaxSteps steps or nothing more can be done
+Emit == (run = <<>> /\ cur = NoStep /\ Len(hist) >= 1 /\ (EmitAll \/ Len(hist) = MaxSteps \/ ~ENABLED GChoose)) =>
           PrintT(<<"REPLAY", ToJson([lay |-> lay, auto |-> AutoPoll, steps |-> hist])>>)
 \* the generator never leaves the safe region of the model (otherwise expectations would be meaningless)
 GenSafe == Safe /\ NoCross /\ Delivered /\ RegisteredImpliesHandler
